@@ -223,7 +223,7 @@ class TaskRef(Ref):
             self.neutral = ("VAs", "VAS", 14)
             self.body_ss = 11
         else:
-            self.flags = {1: PAUSE | RELAX, 2: PAUSE | RELAX}
+            self.flags = {1: PAUSE | RELAX, 2: PAUSE | RELAX, 3: PAUSE | RELAX}     # task 3 has the type of task 1
             self.types = (35, 36, 38, 37)
             self.T = {"task": 35, "gid": 36, "rank": 38, "ss": 37}
             self.neutral = ("6Wt", "6WT", 18)
@@ -256,7 +256,7 @@ class TaskRef(Ref):
                     out.append((("c", k, 5), Ev(si, "VTc", u32(5, 99))))    # unknown type
                 else:
                     for o in "xepr":
-                        for t in (1, 2, 9):
+                        for t in (1, 2, 3, 9):
                             out.append(((o, k, t, 0), Ev(si, "6T" + o, u32(t))))
                     out.append((("c", k, 1), Ev(si, "6Tc", u32(1, 7))))
                 out.append((("n+", k), Ev(si, self.neutral[0])))
@@ -397,6 +397,8 @@ def e2e_walk(ctx, build, scratch, exe, cat, m, tier):
                   Ev(hs, m + "Tc", u32(1, 7)), Ev(hs, m + "Tc", u32(2, 8))]
         if m == "V":
             prefix.append(Ev(hs, "VTC", u32(3, 7)))
+        else:
+            prefix.append(Ev(hs, "6Tc", u32(3, 7)))
         try:
             pp = PrefixPool(pool, prefix)
         except PrefixRefused as e:
@@ -433,7 +435,7 @@ def e2e_walk_2p(ctx, build, scratch, exe, cat, m, tier):
     """Two processes with one thread each: the same task and type ids exist independently in both, with different
     labels, app ids and ranks; what one process does with its task 1 must not matter to the other's task 1."""
     model = "nosv" if m == "V" else "nanos6"
-    rank = 2
+    rank = 0        # rank 0 is shown as 1: the lowest value must be cleared like any other when no body runs
     spec = [{"name": "A", "cpus": [(0, 0), (1, 1)],
              "procs": [{"pid": 100, "app": 1, "threads": [101], "rank": rank, "nranks": 4},
                        {"pid": 200, "app": 2, "threads": [201], "rank": rank + 1, "nranks": 4}]}]
@@ -452,6 +454,8 @@ def e2e_walk_2p(ctx, build, scratch, exe, cat, m, tier):
                        Ev(sidx[k], m + "Tc", u32(1, 7)), Ev(sidx[k], m + "Tc", u32(2, 8))]
             if m == "V":
                 prefix.append(Ev(sidx[k], "VTC", u32(3, 7)))
+            else:
+                prefix.append(Ev(sidx[k], "6Tc", u32(3, 7)))
         try:
             pp = PrefixPool(pool, prefix)
         except PrefixRefused as e:
